@@ -13,10 +13,12 @@ def main():
         if b['kind'] in ('closure',):
             continue
         callees = collections.Counter()
-        for bl in b['blocks']:
-            t = bl['term']
-            if not bl['cleanup'] and t['k'] == 'call':
-                callees[mirlib.norm_callee(t['callee'])] += 1
+        # calls made by the closures of a function belong to it: moving code into or out of a closure is not a different function
+        for bb in [b] + [c for c in facts.bodies if c['fn'].startswith(b['fn'] + '::{closure')]:
+            for bl in bb['blocks']:
+                t = bl['term']
+                if not bl['cleanup'] and t['k'] == 'call':
+                    callees[mirlib.norm_callee(t['callee'])] += 1
         fns[b['fn']] = {
             'kind': b['kind'], 'self_ty': b['self_ty'], 'file': b['file'],
             'sig': [l['ty'] for l in b['locals'][:b['argc'] + 1]],
